@@ -407,16 +407,47 @@ func c17Run(f failer, cfg world.Cfg, c c17Case) {
 					err = fsys.Chtimes(e.Path, time.Unix(1234567, 0), time.Unix(7654321, 0))
 				case "rename":
 					err = fsys.Rename(e.Path, e.Path+"-renamed")
-				case "remove":
+				case "remove", "recreate":
 					err = fsys.RemoveAll(e.Path)
 				}
 			}), m.Kind)
+			if m.Kind == "recreate" && wasAlive && err == nil && (path.Dir(e.Path) == "/" || alive[path.Dir(e.Path)]) {
+				// the name of a removed member is taken again (absolute spelling, as callers use it)
+				var cerr error
+				fresh := hist.Bytes(33, 3, uint64(m.Idx))
+				checkObs(f, hist.Call("recreate "+e.Path, func() {
+					if e.Dir {
+						cerr = fsys.Mkdir(e.Path, 0755)
+						return
+					}
+					var h afero.File
+					if h, cerr = fsys.Create(e.Path); cerr == nil {
+						if _, cerr = h.Write(fresh); cerr == nil {
+							cerr = h.Close()
+						} else {
+							h.Close()
+						}
+					}
+				}), "recreate")
+				if cerr != nil {
+					failf(f, "the name of the removed archive member %s cannot be used again: %v (calls so far: %v)", e.Path, cerr, callErrs)
+				}
+				if !e.Dir {
+					data, rerr := observe.ReadAll(hist.Call, fsys, e.Path)
+					checkObs(f, hangOnly(rerr), "read back")
+					if rerr != nil || !bytes.Equal(data, fresh) {
+						failf(f, "%s was removed and written again, but reads %d bytes (err %v) instead of the %d new ones", e.Path, len(data), rerr, len(fresh))
+					}
+				}
+				callErrs = append(callErrs, "recreate "+e.Path+": ok")
+				live.S.Class("member-call:recreated")
+			}
 			callErrs = append(callErrs, fmt.Sprintf("%s %s: %v", m.Kind, e.Path, err))
 			// a member that is still there accepts the call (it may be gone: renamed/removed earlier)
 			if wasAlive && err != nil {
 				failf(f, "%s of the archive member %s failed: %v (calls so far: %v)", m.Kind, e.Path, err, callErrs)
 			}
-			if wasAlive && (m.Kind == "remove" || m.Kind == "rename") {
+			if wasAlive && (m.Kind == "remove" || m.Kind == "rename" || m.Kind == "recreate") {
 				for p := range alive {
 					if p == e.Path || strings.HasPrefix(p, e.Path+"/") {
 						delete(alive, p)
@@ -543,7 +574,7 @@ func TestC17(t *testing.T) {
 		}
 		if rapid.IntRange(0, 2).Draw(t, "modify") == 0 {
 			for i := 0; i < rapid.IntRange(1, 3).Draw(t, "nmod"); i++ {
-				c.Modify = append(c.Modify, c17Mod{Kind: rapid.SampledFrom([]string{"chmod", "chtimes", "rename", "remove", "chmod"}).Draw(t, "modkind"), Idx: rapid.IntRange(0, 20).Draw(t, "modidx"), Perm: uint32(rapid.SampledFrom([]int{0600, 0755, 0444}).Draw(t, "modperm"))})
+				c.Modify = append(c.Modify, c17Mod{Kind: rapid.SampledFrom([]string{"chmod", "chtimes", "rename", "remove", "chmod", "recreate"}).Draw(t, "modkind"), Idx: rapid.IntRange(0, 20).Draw(t, "modidx"), Perm: uint32(rapid.SampledFrom([]int{0600, 0755, 0444}).Draw(t, "modperm"))})
 			}
 		}
 		c17Run(t, cfg, c)
